@@ -188,3 +188,68 @@ with pr_else (e : elsepart) : list ptok :=
   end.
 
 Definition print (b : block) : list ptok := pr_b b.
+
+(* ---------- every operator expression in parentheses ---------- *)
+
+(* pa_b t: the tree t with parentheses around every operand that is itself an operator expression.
+   norm_b (pa_b t) = norm_b t (the added parentheses are around non-call, non-"..." expressions), so
+   printing it gives a text whose grouping is explicit: the harness compiles it with gopher-lua and
+   compares the bytecode with the original text's - any disagreement about priority or
+   associativity between gopher-lua's grammar and the reference parser shows there. *)
+Definition wrap_op (e : expr) : expr :=
+  match e with EBin _ _ _ | EUn _ _ => EParen e | _ => e end.
+
+Fixpoint pa_e (e : expr) : expr :=
+  match e with
+  | ENil | ETrue | EFalse | EVararg | ENumber _ | EString _ | EName _ => e
+  | EFunction f => EFunction (pa_fb f)
+  | ETable fs => ETable (pa_fl fs)
+  | EBin op a b => EBin op (wrap_op (pa_e a)) (wrap_op (pa_e b))
+  | EUn op a => EUn op (wrap_op (pa_e a))
+  | EIndex p k => EIndex (pa_e p) (pa_e k)
+  | EField p n => EField (pa_e p) n
+  | ECall p a => ECall (pa_e p) (pa_a a)
+  | EMethod p n a => EMethod (pa_e p) n (pa_a a)
+  | EParen x => EParen (pa_e x)
+  end
+with pa_a (a : args) : args :=
+  match a with AList es => AList (pa_el es) | ATable fs => ATable (pa_fl fs) | AString s => AString s end
+with pa_el (l : exprlist) : exprlist :=
+  match l with ELNil => ELNil | ELCons e r => ELCons (pa_e e) (pa_el r) end
+with pa_fl (l : fieldlist) : fieldlist :=
+  match l with FLNil => FLNil | FLCons f r => FLCons (pa_f f) (pa_fl r) end
+with pa_f (f : field) : field :=
+  match f with FPos e => FPos (pa_e e) | FNamed n e => FNamed n (pa_e e) | FKey k e => FKey (pa_e k) (pa_e e) end
+with pa_fb (f : funcbody) : funcbody :=
+  match f with FBody ps va b => FBody ps va (pa_b b) end
+with pa_b (b : block) : block :=
+  match b with
+  | BNil => BNil
+  | BLast l sm => BLast (pa_l l) sm
+  | BCons s sm r => BCons (pa_s s) sm (pa_b r)
+  end
+with pa_l (l : laststat) : laststat :=
+  match l with LReturn es => LReturn (pa_el es) | LBreak => LBreak end
+with pa_s (s : stat) : stat :=
+  match s with
+  | SAssign ts es => SAssign (pa_el ts) (pa_el es)
+  | SCall e => SCall (pa_e e)
+  | SDo b => SDo (pa_b b)
+  | SWhile c b => SWhile (pa_e c) (pa_b b)
+  | SRepeat b c => SRepeat (pa_b b) (pa_e c)
+  | SIf c b e => SIf (pa_e c) (pa_b b) (pa_else e)
+  | SFornum v e1 e2 b => SFornum v (pa_e e1) (pa_e e2) (pa_b b)
+  | SFornum3 v e1 e2 e3 b => SFornum3 v (pa_e e1) (pa_e e2) (pa_e e3) (pa_b b)
+  | SForin ns es b => SForin ns (pa_el es) (pa_b b)
+  | SFunction p m f => SFunction p m (pa_fb f)
+  | SLocalFunction n f => SLocalFunction n (pa_fb f)
+  | SLocal ns es => SLocal ns (pa_el es)
+  | SGoto n => SGoto n
+  | SLabel n => SLabel n
+  end
+with pa_else (e : elsepart) : elsepart :=
+  match e with
+  | ElseNone => ElseNone
+  | ElseIf c b r => ElseIf (pa_e c) (pa_b b) (pa_else r)
+  | Else b => Else (pa_b b)
+  end.
